@@ -14,7 +14,8 @@ mutation nodes only through (`blocks_stats`, `blocks_edges`, `mutations_block`) 
 `ExpectationPropagation.__init__/infer` and is checked end to end by the oracle of the check (re-phasings of
 real inputs give identical output); and tskit's `tables.sort()` in `get_modified_ts`.
 -/
-import TsdateVerif.Proofs.Blocks
+import TsdateVerif.Proofs.BlocksDistinct
+import TsdateVerif.Proofs.Realloc
 
 namespace Tsdate.C22
 open Tsdate Tsdate.Blocks
@@ -49,6 +50,16 @@ theorem blocks_edges_are_individual_edges (inp : Input α) (zero : α) (out : Ou
   rw [h0] at hi0; rw [h1] at hi1
   exact ⟨i, (nodeOfUnphased_of_edgeOf hi0).1, (nodeOfUnphased_of_edgeOf hi1).1,
     (nodeOfUnphased_of_edgeOf hi0).2, (nodeOfUnphased_of_edgeOf hi1).2⟩
+
+/-- **The two edges of a block are two different edges**, provided the edge insertion index lists no edge
+twice (tskit's `indexes_edge_insertion_order` is a permutation of the edge ids; evaluated on every generated
+input by the check).  Together with `blocks_edges_are_individual_edges`: in a tree sequence, where a node has at
+most one edge above it at any position, the two edges are the edges above the individual's two *different*
+nodes. -/
+theorem block_edges_distinct (inp : Input α) (zero : α) (out : Output α)
+    (h : blockSingletons inp zero = some out) (hinj : InsertionInjective inp.toEdgeInput) :
+    ∀ (b e0 e1 : Nat), out.edges[b]? = some (e0, e1) → e0 ≠ e1 :=
+  blockSingletons_edges_distinct h hinj
 
 /-- **A mutation is only ever put in a block of its own individual.**  If `mutations_block[m] = b` then the
 node of `m` belongs to an unphased individual `i`, row `b` of `blocks_edges` exists, and both its edges are
@@ -128,6 +139,26 @@ theorem moved_to_the_other_node (inp : Input α) (zero : α) (out : Output α)
     · exact Or.inr ⟨h1, h2⟩
     · exact absurd (h2.trans h1.symm) hchanged
 
+/-- **The switch ignores the input phase too**: for a mutation in a block, the edge and node written by
+`infer` are a function of (block edges, block of the mutation, fitted phase) only — the node (and edge) the
+mutation had in the input do not enter.  With `blocks_phase_congr` (same blocks for every re-phasing) this
+leaves the fitted phases as the only channel through which the input phase could reach the output placement;
+the phases come from EP, which reads the mutations only through the blocks (by inspection; observed end to end
+by the check's oracle). -/
+theorem placement_ignores_input_node (half : β) (child : Array Nat) (bedges : Array (Nat × Nat))
+    (mblock : List (Option Nat)) (f g : Fit β) (hphase : f.phase = g.phase)
+    (m b : Nat) (φ : Option β) (olde olde' : Option Nat) (oldn oldn' : Nat)
+    (hb : mblock[m]? = some (some b)) (hφ : f.phase[m]? = some φ)
+    (he : f.mutEdge[m]? = some olde) (hn : f.mutNode[m]? = some oldn)
+    (he' : g.mutEdge[m]? = some olde') (hn' : g.mutNode[m]? = some oldn') :
+    (place half child bedges mblock f).mutNode[m]? = (place half child bedges mblock g).mutNode[m]? ∧
+    (place half child bedges mblock f).mutEdge[m]? = (place half child bedges mblock g).mutEdge[m]? := by
+  obtain ⟨h1, h2, _, _⟩ := place_forward half child bedges mblock f m (some b) φ olde oldn hb hφ he hn
+  obtain ⟨h3, h4, _, _⟩ := place_forward half child bedges mblock g m (some b) φ olde' oldn' hb
+    (by rw [← hphase]; exact hφ) he' hn'
+  rw [h1, h2, h3, h4]
+  exact ⟨rfl, rfl⟩
+
 /-- **`singletons_phased=True` ⇒ no blocks.**  With no individual flagged unphased the kernel returns no
 blocks and `mutations_block` is NULL everywhere. -/
 theorem phased_no_blocks (inp : Input α) (zero : α) (out : Output α)
@@ -201,6 +232,12 @@ def exInput (mn : Array Nat) : Input Rat :=
     seqLen := 10, mutNode := mn, mutPos := #[1, 2, 7] }
 
 example : wellFormed (exInput #[0, 1, 0]) = true := by decide +kernel
+
+example : InsertionInjective (exInput #[0, 1, 0]).toEdgeInput := by
+  have key : ∀ k, k < 4 → ∀ k', k' < 4 →
+      aget (#[0, 1, 2, 3] : Array Nat) k = aget (#[0, 1, 2, 3] : Array Nat) k' → k = k' := by decide
+  intro k k' hk hk' h
+  exact key k hk k' hk' h
 
 example : (blockSingletons (exInput #[0, 1, 0]) 0).map (fun o => (o.edges, o.stats, o.mblock))
     = some ([(0, 1), (2, 3)], [(2, some 5), (1, some 5)], #[some 0, some 0, some 1]) := by decide +kernel
